@@ -52,17 +52,44 @@ def ft_cases(args):
         ctl = rnd.choice(('none', 'none', 'c', 'U'))
         frm = rnd.choice([p[0] for p in pre[:-1]])
         limit = n if ctl == 'none' else rnd.choice([p[0] for p in pre if p[0] > frm])
-        ctls = {base + x: t for x, t in pre}
-        c = {'kind': 'ft', 'len': lens_seen, 'isend': ends_seen, 'pre': pre, 'from': frm, 'limit': limit, 'ctl': ctl,
-             'n': 65536 - base, 'clip': 1, 'post': [], 'ret': -1, 'exc': ''}
-        try:
-            ret = snactl._find_terminal_instruction(mem, ctls, base + frm, base + limit, None, None if ctl == 'none' else ctl)
-            c['ret'] = ret - base
-            c['post'] = [[a_ - base, t] for a_, t in sorted(ctls.items())]
-        except Exception as e:
-            c['exc'] = '%s: %s' % (type(e).__name__, e)
-        out.append(c)
+        out.append(ft_call(mem, base, lens_seen, ends_seen, pre, frm, limit, ctl))
     return out
+
+
+def ft_call(mem, base, lens_seen, ends_seen, pre, frm, limit, ctl):
+    """One call of the real _find_terminal_instruction on the image in mem[base:] (recorded as `image` for --replay)."""
+    from skoolkit import snactl
+    n = len(lens_seen) - 3
+    ctls = {base + x: t for x, t in pre}
+    c = {'kind': 'ft', 'len': lens_seen, 'isend': ends_seen, 'pre': pre, 'from': frm, 'limit': limit, 'ctl': ctl,
+         'n': 65536 - base, 'clip': 1, 'post': [], 'ret': -1, 'exc': '', 'image': mem[base:base + n + 6]}
+    try:
+        ret = snactl._find_terminal_instruction(mem, ctls, base + frm, base + limit, None, None if ctl == 'none' else ctl)
+        c['ret'] = ret - base
+        c['post'] = [[a_ - base, t] for a_, t in sorted(ctls.items())]
+    except Exception as e:
+        c['exc'] = '%s: %s' % (type(e).__name__, e)
+    return c
+
+
+def ft_replay(rp):
+    """The recorded abstract image as bytes again (from `image`, or for older files by laying the recorded lengths out along a
+    walk from 0, which gives the same bytes), decoded again, through _find_terminal_instruction of the current tree."""
+    base = 40000
+    n = len(rp['len']) - 3
+    mem = [0] * 65536
+    if 'image' in rp:
+        mem[base:base + len(rp['image'])] = rp['image']
+    else:
+        a = 0
+        while a < n + 3:
+            for k, b in enumerate(OPC[(rp['len'][a], rp['isend'][a])]):
+                if a + k < n + 6:
+                    mem[base + a + k] = b
+            a += rp['len'][a]
+    lens_seen = [z80len.length(mem, base + x) for x in range(n + 3)]
+    ends_seen = [1 if mem[base + x] in (0xC9, 0x18, 0xC3) else 0 for x in range(n + 3)]
+    return ft_call(mem, base, lens_seen, ends_seen, [list(p) for p in rp['pre']], rp['from'], rp['limit'], rp['ctl'])
 
 
 # ---------------------------------------------------------------- whole tool
@@ -262,6 +289,7 @@ def out_cases(args):
             # termination, tiling and map-in-code are judged for it
             strict = 0
             mapaddrs = sorted(rnd.sample(range(start, end), rnd.randrange(1, max(2, (end - start) // 3))))
+        fmt = ''
         if mapaddrs:
             fmt = rnd.choice(('z80', 'specemu', 'rzxplay', 'fuse', 'spud'))
             mapf = os.path.join(sub, 'm%d.map' % k)
@@ -278,61 +306,83 @@ def out_cases(args):
                                ('TextMinLengthData', (2, 3, 5))):
                 if rnd.random() < 0.3:
                     args_ += ['-I', '%s=%s' % (name, rnd.choice(vals))]
-        c = {'kind': 'out', 'strict': strict, 'start': start, 'end': end, 'dirs': [], 'subs': [], 'map': mapaddrs, 'iaddr': [], 'warn': 0,
-             'timeout': 0, 'err': '', 'skoolerr': '', 'mem': full[start:end], 'ignored': [], 'binstart': 0, 'bin': [],
-             'stmts': [], 'args': args_, 'image_kind': kind, 'org': org, 'image': mem}
-        signal.setitimer(signal.ITIMER_VIRTUAL, 20)
-        try:
-            ctl, err, rc = pipedrv.run_tool(sna2ctl.main, args_ + [binf])
-        except Timeout:
-            c['timeout'] = 1
-            out.append(c)
-            continue
-        finally:
-            signal.setitimer(signal.ITIMER_VIRTUAL, 0)
-        c['ctl'] = ctl[:4000]
-        if rc or not ctl.strip():
-            c['err'] = 'rc=%s %s' % (rc, err[-300:])
-            out.append(c)
-            continue
-        for line in ctl.splitlines():
-            m = DIR.match(line)
-            if m:
-                a = m.group(2)
-                a = int(a[1:], 16) if a.startswith('$') else int(a)
-                if m.group(1).islower():
-                    c['dirs'].append([m.group(1), a])
-                elif m.group(1) in 'BCSTW':
-                    c['subs'].append(a)
-        # feed it to sna2skool and on to skool2bin (the C01 guarantee for the generated file)
-        ctlf = os.path.join(sub, 'g%d.ctl' % k)
-        open(ctlf, 'w').write(ctl)
-        # (no -r here: sna2ctl -r has already written the RST arguments as B sub-blocks)
-        sargs = ['-o', str(org), '-c', ctlf]
-        skool, serr, src = pipedrv.run_tool(sna2skool.main, sargs + [binf])
-        if src or not skool.strip():
-            c['skoolerr'] = 'rc=%s %s' % (src, serr[-300:])
-            out.append(c)
-            continue
-        # an instruction of the code map that straddles the requested END cannot be rendered without running into
-        # the terminating i block: that one warning is inherent in the input, every other warning counts
-        warns = [l for l in serr.splitlines() if l.startswith('WARNING') and not l.rstrip().endswith('instruction at %d' % end)]
-        if warns:
-            c['warn'] = 1
-            c['warning'] = '\n'.join(warns)[-400:]
-        c['iaddr'] = pipedrv.stmt_addresses(skool)
-        c['stmts'] = c['iaddr']
-        skf = os.path.join(sub, 'g%d.skool' % k)
-        outf = os.path.join(sub, 'g%d.bin' % k)
-        open(skf, 'w').write(skool)
-        _, berr, brc = pipedrv.run_tool(skool2bin.main, [skf, outf])
-        if brc or not os.path.isfile(outf):
-            c['skoolerr'] = 'skool2bin rc=%s %s' % (brc, berr[-300:])
-            out.append(c)
-            continue
-        m = re.search(r'start=(\d+), end=(\d+)', berr)
-        c['binstart'] = int(m.group(1)) if m else start
-        c['bin'] = list(open(outf, 'rb').read())
-        c['skool'] = skool[:3000]
-        out.append(c)
+        out.append(drive_out(sub, k, binf, args_, strict, start, end, mapaddrs, fmt, full, kind, org, mem))
     return out
+
+
+def drive_out(sub, k, binf, args_, strict, start, end, mapaddrs, mapfmt, full, kind, org, mem):
+    """sna2ctl on the image file binf with args_, then sna2skool + skool2bin on its output -> CtlCases record.  `image`, `org`,
+    `map`, `mapfmt`, `args` (apart from the path after -m) are the whole input: --replay."""
+    from skoolkit import sna2ctl, sna2skool, skool2bin
+    c = {'kind': 'out', 'strict': strict, 'start': start, 'end': end, 'dirs': [], 'subs': [], 'map': mapaddrs, 'iaddr': [], 'warn': 0,
+         'timeout': 0, 'err': '', 'skoolerr': '', 'mem': full[start:end], 'ignored': [], 'binstart': 0, 'bin': [],
+         'stmts': [], 'args': args_, 'image_kind': kind, 'org': org, 'image': mem, 'mapfmt': mapfmt}
+    signal.setitimer(signal.ITIMER_VIRTUAL, 20)
+    try:
+        ctl, err, rc = pipedrv.run_tool(sna2ctl.main, args_ + [binf])
+    except Timeout:
+        c['timeout'] = 1
+        return c
+    finally:
+        signal.setitimer(signal.ITIMER_VIRTUAL, 0)
+    c['ctl'] = ctl[:4000]
+    if rc or not ctl.strip():
+        c['err'] = 'rc=%s %s' % (rc, err[-300:])
+        return c
+    for line in ctl.splitlines():
+        m = DIR.match(line)
+        if m:
+            a = m.group(2)
+            a = int(a[1:], 16) if a.startswith('$') else int(a)
+            if m.group(1).islower():
+                c['dirs'].append([m.group(1), a])
+            elif m.group(1) in 'BCSTW':
+                c['subs'].append(a)
+    # feed it to sna2skool and on to skool2bin (the C01 guarantee for the generated file)
+    ctlf = os.path.join(sub, 'g%d.ctl' % k)
+    open(ctlf, 'w').write(ctl)
+    # (no -r here: sna2ctl -r has already written the RST arguments as B sub-blocks)
+    sargs = ['-o', str(org), '-c', ctlf]
+    skool, serr, src = pipedrv.run_tool(sna2skool.main, sargs + [binf])
+    if src or not skool.strip():
+        c['skoolerr'] = 'rc=%s %s' % (src, serr[-300:])
+        return c
+    # an instruction of the code map that straddles the requested END cannot be rendered without running into
+    # the terminating i block: that one warning is inherent in the input, every other warning counts
+    warns = [l for l in serr.splitlines() if l.startswith('WARNING') and not l.rstrip().endswith('instruction at %d' % end)]
+    if warns:
+        c['warn'] = 1
+        c['warning'] = '\n'.join(warns)[-400:]
+    c['iaddr'] = pipedrv.stmt_addresses(skool)
+    c['stmts'] = c['iaddr']
+    skf = os.path.join(sub, 'g%d.skool' % k)
+    outf = os.path.join(sub, 'g%d.bin' % k)
+    open(skf, 'w').write(skool)
+    _, berr, brc = pipedrv.run_tool(skool2bin.main, [skf, outf])
+    if brc or not os.path.isfile(outf):
+        c['skoolerr'] = 'skool2bin rc=%s %s' % (brc, berr[-300:])
+        return c
+    m = re.search(r'start=(\d+), end=(\d+)', berr)
+    c['binstart'] = int(m.group(1)) if m else start
+    c['bin'] = list(open(outf, 'rb').read())
+    c['skool'] = skool[:3000]
+    return c
+
+
+def out_replay(wd, rp, mapfmt):
+    """Image file and code map file written again from the record, the recorded sna2ctl options with the new map path."""
+    from ..lib import cbuild
+    cbuild.repo_only()
+    os.makedirs(wd, exist_ok=True)
+    signal.signal(signal.SIGVTALRM, _alarm)
+    org, mem = rp['org'], list(rp['image'])
+    binf = os.path.join(wd, 'i0.bin')
+    open(binf, 'wb').write(bytes(mem))
+    args_ = list(rp['args'])
+    if '-m' in args_:
+        mapf = os.path.join(wd, 'm0.map')
+        write_map(mapf, mapfmt, rp['map'])
+        args_[args_.index('-m') + 1] = mapf
+    full = [0] * 65536
+    full[org:org + len(mem)] = mem
+    return drive_out(wd, 0, binf, args_, rp['strict'], rp['start'], rp['end'], list(rp['map']), mapfmt, full, rp.get('image_kind', '?'), org, mem)
